@@ -1,7 +1,56 @@
-(* C10 -- placeholder until the session theorems for this property are in place *)
-From SF Require Import Session Session_proofs Session_c07.
-Theorem C10_pre_logon_frame : forall cfg s o s' os,
-    not_logged s -> pools_ok s -> not_app_send o -> step cfg s o = (s', os) ->
-    Forall post_logon_types (wire_types os).
-Proof. exact logon_step_wires. Qed.
-Print Assumptions C10_pre_logon_frame.
+(* C10 -- A ResendRequest is answered with exactly the requested stored messages. *)
+From SF Require Import Bytes Values Wire Parse Session Session_proofs Session_clean Session_handlers.
+
+(* logged on: the handler looks up from..to (to = 0 meaning the last number sent) and retransmits
+   what the store returns, or nothing *)
+Theorem C10_resend_answer :
+  forall cfg s d rm,
+    parse_as msgtype_ResendRequest tpl_ResendRequest d = Ok rm -> is_logged s = true ->
+    let from := get_int tag_BeginSeqNo (m_body rm) in
+    let to0 := get_int tag_EndSeqNo (m_body rm) in
+    let to := if Z.eqb to0 0 then s_cnt_out s else to0 in
+    run_in_handler cfg s HResend d =
+    match store_messages s from to with
+    | Some ms => let '(s', o) := send_batch cfg s ms in (s', drop_err o, true)
+    | None => (s, [], true)
+    end.
+Proof. exact resend_answer. Qed.
+Print Assumptions C10_resend_answer.
+
+(* the store returns the messages saved under from, from+1, ..., to -- all of them, in
+   ascending order -- only when from <= to <= last sent and every one of them is stored *)
+Theorem C10_store_range :
+  forall s from to ms,
+    store_messages s from to = Some ms ->
+    (from <= to)%Z /\ (to <= s_cnt_out s)%Z /\ length ms = Z.to_nat (to - from + 1)
+    /\ forall i, (i < length ms)%nat -> nth_error ms i = store_get (s_store s) (from + Z.of_nat i).
+Proof. exact store_messages_spec. Qed.
+Print Assumptions C10_store_range.
+
+(* and the batch puts exactly those messages on the wire, in that order, unchanged (what was
+   stored under a number is what was transmitted under it: C19_store_before_send) *)
+Theorem C10_batch_retransmits :
+  forall cfg ms s, clean cfg s -> save_first s ->
+    exists s' o, send_batch cfg s ms = (s', o)
+                 /\ wires o = map (fun m => fst (prepare m)) ms
+                 /\ ~ In OSendErr o /\ same_control s s' /\ s_cnt_out s' = s_cnt_out s
+                 /\ clean cfg s' /\ save_first s'.
+Proof. exact send_batch_clean. Qed.
+Print Assumptions C10_batch_retransmits.
+
+(* gap detection: a Logon numbered beyond the next expected one makes the session ask for a
+   resend starting at the first missing number, open-ended *)
+Theorem C10_gap_detection :
+  forall cfg s inc,
+    process_inc_seq cfg s inc =
+    (if Z.ltb (s_cnt_in s + 1) inc
+     then let '(s1, o) := session_send cfg s (gap_request (s_cnt_in s + 1)) in (upd_cnt_in s1 inc, o)
+     else (upd_cnt_in s inc, [])).
+Proof. exact gap_detection. Qed.
+Print Assumptions C10_gap_detection.
+Theorem C10_gap_request_fields :
+  forall n, get_kv tag_BeginSeqNo (m_body (gap_request n)) = Some (VInt true n)
+            /\ get_kv tag_EndSeqNo (m_body (gap_request n)) = Some (VInt true 0%Z)
+            /\ mt_of (gap_request n) = msgtype_ResendRequest.
+Proof. exact gap_request_fields. Qed.
+Print Assumptions C10_gap_request_fields.
